@@ -49,7 +49,7 @@ func weighted(t *rapid.T, label string, w ...int) int {
 }
 
 func genU64Near(t *rapid.T, label string, base uint64) uint64 {
-	switch weighted(t, label+".k", 50, 8, 8, 4, 4, 3, 3, 3, 3, 3, 3, 8) {
+	switch weighted(t, label+".k", 70, 6, 6, 3, 3, 2, 2, 2, 2, 2, 2, 4) {
 	case 0:
 		return base
 	case 1:
@@ -77,7 +77,7 @@ func genU64Near(t *rapid.T, label string, base uint64) uint64 {
 }
 
 func genU32Near(t *rapid.T, label string, base uint32) uint32 {
-	switch weighted(t, label+".k", 50, 8, 8, 4, 5, 5, 3, 3, 3, 3, 8) {
+	switch weighted(t, label+".k", 70, 6, 6, 3, 3, 3, 2, 2, 2, 2, 4) {
 	case 0:
 		return base
 	case 1:
@@ -262,6 +262,22 @@ type cctx struct {
 	attacker int           // genesis index of the validator whose key the attacker holds
 	proposer int           // genesis index of the proposer of (H,R)
 	seeds    []wire
+	// focus: the height / round / vote type / block id this peer's messages are mostly about, drawn once per case so
+	// that the messages of a sequence refer to each other (a claim, then bits for the same claim, …)
+	fH    uint64
+	fR    uint32
+	fType kproto.SignedMsgType
+	fID   *kproto.BlockID
+}
+
+func (c *cctx) drawFocus(t *rapid.T) {
+	c.fH, c.fR = c.H, c.R
+	c.fH = genU64Near(t, "focus.h", c.H)
+	c.fR = genU32Near(t, "focus.r", c.R)
+	c.fType = pick(t, "focus.type", kproto.PrevoteType, kproto.PrecommitType)
+	c.fID = nil
+	id := c.genBlockID(t, "focus.id", 1<<26)
+	c.fID = &id
 }
 
 func chanOf(m consensus.Message) byte {
@@ -359,6 +375,9 @@ func (c *cctx) isSeed(b []byte) bool {
 // ---------------------------------------------------------------- structure-aware messages
 
 func (c *cctx) genBlockID(t *rapid.T, label string, maxHuge uint32) kproto.BlockID {
+	if c.fID != nil && weighted(t, label+".focus", 65, 35) == 0 {
+		return *c.fID
+	}
 	var base types.BlockID
 	switch k := weighted(t, label+".k", 60, 10, 15, 15); {
 	case k == 0 && len(c.ids) > 0:
@@ -375,6 +394,13 @@ func (c *cctx) genBlockID(t *rapid.T, label string, maxHuge uint32) kproto.Block
 	}
 	return kproto.BlockID{Hash: genHash(t, label+".hash", base.Hash.Bytes()),
 		PartSetHeader: kproto.PartSetHeader{Total: genTotal(t, label+".total", base.PartsHeader.Total, maxHuge), Hash: genHash(t, label+".phash", base.PartsHeader.Hash.Bytes())}}
+}
+
+func (c *cctx) genType(t *rapid.T, label string) kproto.SignedMsgType {
+	if weighted(t, label+".focus", 65, 35) == 0 {
+		return c.fType
+	}
+	return genType(t, label)
 }
 
 func genType(t *rapid.T, label string) kproto.SignedMsgType {
@@ -443,7 +469,7 @@ func (c *cctx) genVote(t *rapid.T) (*kproto.Vote, string) {
 		vidx, addr = uint32(c.v.nd.ValidatorIndex()), c.v.nd.Addr.Bytes() // claims to be the victim itself
 		desc += "+as-victim"
 	}
-	pv := &kproto.Vote{Type: genType(t, "vote.type"), Height: genU64Near(t, "vote.h", c.H), Round: genU32Near(t, "vote.r", c.R),
+	pv := &kproto.Vote{Type: c.genType(t, "vote.type"), Height: genU64Near(t, "vote.h", c.fH), Round: genU32Near(t, "vote.r", c.fR),
 		BlockID: c.genBlockID(t, "vote.id", 1<<32-1), Timestamp: genTime(t, "vote.ts"), ValidatorAddress: addr, ValidatorIndex: vidx}
 	if weighted(t, "vote.sig", 80, 20) == 0 {
 		if err := types.NewDefaultPrivValidator(c.v.s.Keys[c.attacker]).SignVote(c.v.s.G.ChainID, pv); err != nil {
@@ -472,7 +498,7 @@ func (c *cctx) genProposal(t *rapid.T) (*kproto.Proposal, string) {
 	if garbage || !byProposer {
 		maxHuge = 1<<32 - 1
 	}
-	pp := &kproto.Proposal{Type: genType(t, "prop.type"), Height: genU64Near(t, "prop.h", c.H), Round: genU32Near(t, "prop.r", c.R),
+	pp := &kproto.Proposal{Type: genType(t, "prop.type"), Height: genU64Near(t, "prop.h", c.fH), Round: genU32Near(t, "prop.r", c.fR),
 		PolRound: pick(t, "prop.pol", 0, 0, 0, 1, c.R-1, c.R, c.R+1, 1<<32-1), BlockID: c.genBlockID(t, "prop.id", maxHuge), Timestamp: genTime(t, "prop.ts")}
 	if garbage {
 		pp.Signature = genSigGarbage(t, "prop.gsig")
@@ -547,7 +573,7 @@ func (c *cctx) structured(t *rapid.T) wire {
 	switch weighted(t, "type", 12, 14, 14, 10, 12, 14, 8, 8, 12) {
 	case 0:
 		step := pick(t, "nrs.step", uint32(1), 2, 3, 4, 5, 6, 7, 8, 0, 9, 255, 256+3, 1<<32-1)
-		h := genU64Near(t, "nrs.h", c.H)
+		h := genU64Near(t, "nrs.h", c.fH)
 		lcr := genU32Near(t, "nrs.lcr", c.v.lastCommitRound())
 		if weighted(t, "nrs.lcrfit", 70, 30) == 0 { // what ValidateHeight demands
 			if h <= 1 {
@@ -556,7 +582,7 @@ func (c *cctx) structured(t *rapid.T) wire {
 				lcr = 1
 			}
 		}
-		return wire{ch: consensus.StateChannel, desc: "NewRoundStep", data: encCons(&kcons.NewRoundStep{Height: h, Round: genU32Near(t, "nrs.r", c.R), Step: step,
+		return wire{ch: consensus.StateChannel, desc: "NewRoundStep", data: encCons(&kcons.NewRoundStep{Height: h, Round: genU32Near(t, "nrs.r", c.fR), Step: step,
 			SecondsSinceStartTime: pick(t, "nrs.secs", uint64(0), 1, 1<<31, 1<<63, ^uint64(0)), LastCommitRound: lcr})}
 	case 1:
 		id := c.genBlockID(t, "nvb.id", 1<<32-1)
@@ -565,31 +591,31 @@ func (c *cctx) structured(t *rapid.T) wire {
 			nat = 1 << 20
 		}
 		b, bd := genBits(t, "nvb.bits", nat)
-		return wire{ch: consensus.StateChannel, desc: "NewValidBlock/" + bd, data: encCons(&kcons.NewValidBlock{Height: genU64Near(t, "nvb.h", c.H), Round: genU32Near(t, "nvb.r", c.R),
+		return wire{ch: consensus.StateChannel, desc: "NewValidBlock/" + bd, data: encCons(&kcons.NewValidBlock{Height: genU64Near(t, "nvb.h", c.fH), Round: genU32Near(t, "nvb.r", c.fR),
 			BlockPartSetHeader: id.PartSetHeader, BlockParts: b, IsCommit: rapid.Bool().Draw(t, "nvb.commit")})}
 	case 2:
 		pp, d := c.genProposal(t)
 		return wire{ch: consensus.DataChannel, desc: "Proposal/" + d, data: encCons(&kcons.Proposal{Proposal: *pp})}
 	case 3:
 		b, bd := genBits(t, "pol.bits", c.nVals)
-		return wire{ch: consensus.DataChannel, desc: "ProposalPOL/" + bd, data: encCons(&kcons.ProposalPOL{Height: genU64Near(t, "pol.h", c.H),
+		return wire{ch: consensus.DataChannel, desc: "ProposalPOL/" + bd, data: encCons(&kcons.ProposalPOL{Height: genU64Near(t, "pol.h", c.fH),
 			ProposalPolRound: pick(t, "pol.r", 0, 1, 1, c.R-1, c.R, c.R+1, 1<<32-1), ProposalPol: bitsVal(b)})}
 	case 4:
 		p, d := c.genPart(t)
-		return wire{ch: consensus.DataChannel, desc: "BlockPart/" + d, data: encCons(&kcons.BlockPart{Height: genU64Near(t, "bp.h", c.H), Round: genU32Near(t, "bp.r", c.R), Part: p})}
+		return wire{ch: consensus.DataChannel, desc: "BlockPart/" + d, data: encCons(&kcons.BlockPart{Height: genU64Near(t, "bp.h", c.fH), Round: genU32Near(t, "bp.r", c.fR), Part: p})}
 	case 5:
 		pv, d := c.genVote(t)
 		return wire{ch: consensus.VoteChannel, desc: "Vote/" + d, data: encCons(&kcons.Vote{Vote: pv})}
 	case 6:
-		return wire{ch: consensus.StateChannel, desc: "HasVote", data: encCons(&kcons.HasVote{Height: genU64Near(t, "hv.h", c.H), Round: genU32Near(t, "hv.r", c.R),
-			Type: genType(t, "hv.type"), Index: genIndex(t, "hv.idx", c.nVals)})}
+		return wire{ch: consensus.StateChannel, desc: "HasVote", data: encCons(&kcons.HasVote{Height: genU64Near(t, "hv.h", c.fH), Round: genU32Near(t, "hv.r", c.fR),
+			Type: c.genType(t, "hv.type"), Index: genIndex(t, "hv.idx", c.nVals)})}
 	case 7:
-		return wire{ch: consensus.StateChannel, desc: "VoteSetMaj23", data: encCons(&kcons.VoteSetMaj23{Height: genU64Near(t, "m23.h", c.H), Round: genU32Near(t, "m23.r", c.R),
-			Type: genType(t, "m23.type"), BlockID: c.genBlockID(t, "m23.id", 1<<32-1)})}
+		return wire{ch: consensus.StateChannel, desc: "VoteSetMaj23", data: encCons(&kcons.VoteSetMaj23{Height: genU64Near(t, "m23.h", c.fH), Round: genU32Near(t, "m23.r", c.fR),
+			Type: c.genType(t, "m23.type"), BlockID: c.genBlockID(t, "m23.id", 1<<32-1)})}
 	}
 	b, bd := genBits(t, "vsb.bits", c.nVals)
-	return wire{ch: consensus.VoteSetBitsChannel, desc: "VoteSetBits/" + bd, data: encCons(&kcons.VoteSetBits{Height: genU64Near(t, "vsb.h", c.H), Round: genU32Near(t, "vsb.r", c.R),
-		Type: genType(t, "vsb.type"), BlockID: c.genBlockID(t, "vsb.id", 1<<32-1), Votes: bitsVal(b)})}
+	return wire{ch: consensus.VoteSetBitsChannel, desc: "VoteSetBits/" + bd, data: encCons(&kcons.VoteSetBits{Height: genU64Near(t, "vsb.h", c.fH), Round: genU32Near(t, "vsb.r", c.fR),
+		Type: c.genType(t, "vsb.type"), BlockID: c.genBlockID(t, "vsb.id", 1<<32-1), Votes: bitsVal(b)})}
 }
 
 // ---------------------------------------------------------------- byte-level generators (shared by all channels)
